@@ -19,7 +19,7 @@ CHECKS = {
          "Builds with sizes swept around 16K/32K/64K multiples, empty files, many tiny files, case-twin paths; diff-time signing through a source pool that slices every read randomly and yields, and stand-alone signing; every compression setting of the signature stream; validation of the pristine build in both modes must report nothing, also for a validator context that has just validated a damaged copy; symlink destinations spelled in non-normal forms; every third case runs four validations at the same time; builds that are one regular file (one pool object signs stand-alone and at diff time, the file itself is the validation target).",
          "Trusted: crypto/md5; the independent stream decoder.", "§5 C04"),
  "C05": ("fault_enumeration", "fault enumeration with an independent truth oracle: boundary-directed damage list applied to signed trees, wounds read from the .pww event log by the independent decoder, coverage of every differing offset checked",
-         "Every damage of the list (bit flips at block edges, truncation/extension around every block boundary, long garbled runs beyond the 4 MiB aggregation limit, kind swaps, symlink retargeting, directory replaced by a symlink to another existing directory) alone and in random combinations; truth is the byte-wise comparison of the damaged tree with the reference; fail-fast and wounds-file modes; weak-hash-preserving edits (also in each of several identical consecutive blocks); length change + content change in the same file; symlinks retargeted to another spelling of the signed destination; validator contexts that validated a pristine sibling build (same layout, other content and signature) before.",
+         "Every damage of the list (bit flips at block edges, truncation/extension around every block boundary, long garbled runs beyond the 4 MiB aggregation limit, kind swaps, symlink retargeting, directory replaced by a symlink to another existing directory) alone and in random combinations; truth is the byte-wise comparison of the damaged tree with the reference; fail-fast and wounds-file modes; weak-hash-preserving edits (also in each of several identical consecutive blocks); length change + content change in the same file; symlinks retargeted to another spelling of the signed destination; every deviating directory / symlink must be named by a wound of its kind and index; a named pipe in place of a file; validator contexts that validated a pristine sibling build (same layout, other content and signature) before.",
          "A non-nil error from non-fail-fast Validate counts as 'not declared valid' (counted).", "§5 C05"),
  "C07": ("exploration", "reference-model monitor + quiescence-based hang detector around the real optimizer over a parameter grid; child-process isolation attributes process-fatal panics",
          "Patches from pairs emphasising tiny new/old files, files smaller than the partition count, rename+edit, equal shares, several optimized files with decreasing old sizes and content moved from the bigger into the smaller file, a single optimized file; pools shared across the optimizer runs of a case (odd cases); partitions 0..16 x ForceMapAll x suffix-sort concurrency x size limits x output compression; the optimized patch is decoded against the grammar and applied fresh and in place; result compared with the new build.",
@@ -55,9 +55,9 @@ CHECKS = {
          "Each pair is diffed R times with a different controller seed per run (the second run on a DiffContext object that diffed a decoy old build before; optimizer runs share pools) and optimized R times per parameter set; any byte difference is a violation; the same reduced list runs under -race and every de-duplicated report with a frame in the differ/optimizer pipelines is a violation.",
          "Race detector sees executed interleavings only; map order sampled by repetition.", "§5 C15"),
  "C16": ("fault_enumeration", "fault/cancellation-instant enumeration at build-tag hooks + quiescence-based deadlock detector over goroutine dumps; independent truth for the fail-fast verdict; forced cancel-inside-healer schedule",
-         "Builds up to 2500 directories / 1300 files with 1023/1024/1025 wounds; consumers fail-fast, wounds file (good / missing dir / /dev/full), printer, healer (good / missing / corrupted archive); a file worker that fails (signature one hash short); cancellation before the call, at directory checks, at the main select and file start of every file, after queueing, before closing the wound channel, inside the healer between its context check and queueing, and from OnProgress callbacks. Validate must return; fail-fast nil implies the tree really matches; after a cancelled fail-fast run the same context validates once more and must return the true verdict.",
+         "Builds up to 2500 directories / 1300 files with 1023/1024/1025 wounds; consumers fail-fast, wounds file (good / missing dir / /dev/full), printer, healer (good / missing / corrupted archive); a file worker that fails (signature one hash short); a named pipe in place of a file; a target that is one regular file cut at block boundaries; cancellation before the call, at directory checks, at the main select and file start of every file, after queueing, before closing the wound channel, inside the healer between its context check and queueing, and from OnProgress callbacks. Validate must return; fail-fast nil implies the tree really matches; after a cancelled fail-fast run the same context validates once more and must return the true verdict.",
          "Leftover goroutines are reported, not judged.", "§5 C16"),
- "C18": ("exploration", "reference-model monitor: block-wise truth computed by the harness; inner pool records every byte; wound/marker log checked for order, tiling and exactness",
+ "C18": ("exploration", "reference-model monitor: block-wise truth computed by the harness; inner pool records every byte; wound/marker log checked for order, tiling and exactness; the call that completes the first bad block must be the one that fails",
          "Signed sizes around block multiples, written data differing in every subset of blocks / deleted / duplicated / swapped / extended / prefixes, all write slicings, error mode (stop-and-close and keep-writing drivers) and wound mode (raw and aggregated); also written the patcher's way through a pool bowl (entry writer and Transpose out of plain and short-reading target pools).",
          "Ranges of wounds beyond the signed block count are not judged.", "§5 C18"),
  "C19": ("exploration", "independent tree oracle + entry-count oracle from the standard library reader; crash-state snapshots inside OnEntryDone with forced out-of-order completion through a harness io.ReaderAt; race detector as a deciding oracle for the archiver",
